@@ -5,8 +5,13 @@ What this check carries:
       the global-balance condition as a corollary of C05's flow balance, pair-factor special case;
   (2) handler glue (this file): the REAL send_event_time / send_out_state of the interaction event handlers
       (TwoLeafUnit, TwoLeafUnitBoundingPotential, TwoLeafUnit...PiecewiseConstantBoundingPotential,
-      FixedSeparations...PiecewiseConstantBoundingPotential, TwoCompositeObjectSummedBoundingPotential) on real
-      Node/Unit in-states with stub potentials and patched draws, against
+      FixedSeparations...PiecewiseConstantBoundingPotential, TwoCompositeObjectSummedBoundingPotential,
+      RootUnitActiveTwoLeafUnit, RootUnitActiveTwoCompositeObjectSummedBoundingPotential (molecule mode: the velocity
+      of ALL leaves of the active object goes to ALL leaves of the target object, root velocities updated),
+      TwoLeafUnitCellBoundingPotential, TwoCompositeObjectCellBoundingPotential (stub cell system; None out-state when
+      the active unit left its cell), send_out_state of LeafUnitCellVeto / CompositeObjectCellVeto (empty target cell;
+      thinning against the stored bounding rate; lifting)), single calls and 2-4 rounds on ONE handler instance, on
+      real Node/Unit in-states with stub potentials and patched draws, against
         (a) a Python oracle in exact rational arithmetic: budget = expovariate(beta) with the configured beta and
             handed to the right call; velocity handed = the active unit's; separation = target - reference through
             the periodic minimum image; candidate time = stamp + displacement; every moving unit time-sliced to the
@@ -212,22 +217,143 @@ def gen_case(rng, kind, base=None, cap=None):
         job["unif"] = [f2b(rng.randrange(0, 16) / 16), f2b(rng.randrange(1, 16) / 16), f2b(rng.randrange(1, 16) / 16)]
     return job
 
+NEW_KINDS = ["ROOTTL", "ROOTSUM", "CELLB", "CCELLB", "LCV", "CCV"]
+
+
+def later_time(rng, ts):
+    return [ts[0] + float(rng.choice([0, 0, 1, 3])), rng.random()] if rng.random() < 0.8 else \
+        [ts[0] + 1.0, 0.0]
+
+
+def full_objects(rng, dim, L, charge, m, mode):
+    """Two composite objects with m leaves each.  mode "root": every leaf of the first or second object (and its root)
+    moves with the same velocity; mode "leaf": one leaf moves (root velocity = weight * leaf velocity)."""
+    ids = rng.sample(range(10), 2)
+    vel = rvel(rng, dim)
+    act_first = rng.random() < 0.5
+    units = []
+    for k, rid in enumerate(ids):
+        active = (k == 0) == act_first
+        if mode == "leaf":
+            composite(rng, units, rid, m, dim, L, rng.randrange(m) if active else None, vel, charge)
+        else:
+            ri = len(units)
+            units.append(unit([rid], rpos(rng, dim, L), vel if active else None, gen_time(rng) if active else None,
+                              0.0 if charge else None, None, 1.0))
+            for j in range(m):
+                units.append(unit([rid, j], rpos(rng, dim, L), vel if active else None,
+                                  gen_time(rng) if active else None,
+                                  rng.choice([1.0, -1.0, 0.5, -2.0]) if charge else None, ri, 1.0 / m))
+    return units
+
+
+def gen_new_case(rng, kind, base=None):
+    if base is None:
+        dim, L, beta = gen_env(rng)
+        charge = rng.random() < 0.5
+        job = {"kind": kind, "beta": f2b(beta), "dim": dim, "L": f2b(L), "charge": charge,
+               "ncharge": 2 if charge else rng.choice([0, 0, 2]), "change_required": rng.random() < 0.6,
+               "lifting": rng.choice(list(SCHEMES)), "offset": f2b(0.0), "max_disp": f2b(1.0), "separations": [],
+               "_n": rng.choice([2, 2, 3])}
+    else:
+        job = {k: base[k] for k in ENV_KEYS if k in base}
+        dim, L, beta, charge = job["dim"], b2f(job["L"]), b2f(job["beta"]), job["charge"]
+    job.update({"ret": {}, "expo": [], "unif": []})
+    m = job["_n"]
+    disp = rng.choice([rng.expovariate(1.0), rng.expovariate(1.0) * 10 ** rng.randrange(-6, 2), 0.0, 0.5, L])
+    e = rng.expovariate(1.0) / beta
+    u16 = lambda lo=0: f2b(rng.randrange(lo, 16) / 16)      # noqa
+    if kind == "ROOTTL":
+        units2 = full_objects(rng, dim, L, charge, m, "root")
+        picks = [rng.randrange(m), rng.randrange(m)]
+        units = []
+        for k in range(2):
+            root = dict(units2[k * (m + 1)])
+            leaf = dict(units2[k * (m + 1) + 1 + picks[k]])
+            leaf["parent"] = len(units)
+            units += [root, leaf]
+        job.update(units=units, units2=units2, ret={"disp": [f2b(disp)]}, expo=[f2b(e)])
+    elif kind == "ROOTSUM":
+        units = full_objects(rng, dim, L, charge, m, "root")
+        n = m * m
+        bd = [rng.choice([rng.expovariate(1.0), disp, 0.25]) for _ in range(n)]
+        job.update(units=units, units2=json.loads(json.dumps(units)),
+                   ret={"bdisp": [f2b(x) for x in bd], "bder": [f2b(dy(rng, -1, 3)) for _ in range(n)],
+                        "der": [f2b(dy(rng, -2, 3)) for _ in range(n)]},
+                   expo=[f2b(rng.expovariate(1.0) / beta) for _ in range(n)], unif=[u16()])
+    elif kind in ("CELLB", "CCELLB"):
+        c_act, c_oth = rng.sample(range(1, 50), 2)
+        left = rng.random() < 0.25
+        job["cells"] = {"tokens": [c_act, c_oth, rng.choice([x for x in range(1, 50) if x != c_act]) if left else c_act],
+                        "relative": rng.randrange(1, 200)}
+        if kind == "CELLB":
+            b = dy(rng, 0, 5) + 0.125
+            r = rng.choice([dy(rng, -3, 5), b * rng.choice([0.25, 0.5, 1.0])])
+            job.update(units=gen_two_leaf_state(rng, dim, L, charge),
+                       ret={"bdisp": [f2b(disp)], "bder": [f2b(b)], "der": [f2b(r)]}, expo=[f2b(e)], unif=[u16()])
+        else:
+            job.update(units=full_objects(rng, dim, L, charge, m, "leaf"),
+                       ret={"bdisp": [f2b(disp)], "bder": [f2b(dy(rng, 0, 6) + 0.125)],
+                            "der": [f2b(dy(rng, -2, 3)) for _ in range(m + (m - 1) * m)]},
+                       expo=[f2b(e)], unif=[u16(), u16(1), u16(1)])
+    elif kind == "LCV":
+        vel = [0.0] * dim
+        vel[rng.randrange(dim)] = rng.choice([1.0, 0.5, 2.0, rng.uniform(0.1, 3.0)])
+        ids = rng.sample(range(10), 2)
+        composite_mode = rng.random() < 0.5
+
+        def one(rid, active):
+            us = []
+            if composite_mode:
+                j = rng.randrange(m)
+                composite(rng, us, rid, m, dim, L, j if active else None, vel, charge, only=[j])
+            else:
+                us.append(unit([rid], rpos(rng, dim, L), vel if active else None, gen_time(rng) if active else None,
+                               rng.choice([1.0, -1.0, 2.5]) if charge else None))
+            return us
+        units = one(ids[0], True)
+        ts = [b2f(x) for x in units[-1]["ts"]]
+        b = dy(rng, 0, 5) + 0.125
+        r = rng.choice([dy(rng, -3, 5), b * rng.choice([0.25, 0.5, 1.0])])
+        job.update(units=units, target=None if rng.random() < 0.3 else one(ids[1], False),
+                   T=[f2b(x) for x in later_time(rng, ts)], b=f2b(b), ret={"der": [f2b(r)]}, unif=[u16()])
+    elif kind == "CCV":
+        vel = [0.0] * dim
+        vel[rng.randrange(dim)] = rng.choice([1.0, 0.5, 2.0, rng.uniform(0.1, 3.0)])
+        ids = rng.sample(range(10), 2)
+        units, target = [], []
+        composite(rng, units, ids[0], m, dim, L, rng.randrange(m), vel, charge)
+        composite(rng, target, ids[1], m, dim, L, None, vel, charge)
+        act = [u for u in units if u["vel"] is not None and u["parent"] is not None][0]
+        ts = [b2f(x) for x in act["ts"]]
+        # the root and the leaf of a real global state carry the same time stamp or not; both are fine
+        job.update(units=units, target=None if rng.random() < 0.25 else target,
+                   T=[f2b(x) for x in later_time(rng, [max(ts[0], b2f(units[0]["ts"][0])), 0.0])],
+                   b=f2b(dy(rng, 0, 6) + 0.125),
+                   ret={"der": [f2b(dy(rng, -2, 3)) for _ in range(m + (m - 1) * m)]}, unif=[u16(), u16(1), u16(1)])
+    return job
+
+
+ROUND_KEYS = ("units", "units2", "target", "T", "b", "cells", "ret", "expo", "unif", "do_out")
+
 
 def gen_seq(rng, kind):
     """2-4 rounds (send_event_time [, send_out_state]) on ONE handler instance, as in the real program; for the
     piecewise-constant handlers capped and uncapped candidates alternate."""
     cap = rng.random() < 0.5 if kind in ("PW2", "FIXED") else None
-    first = gen_case(rng, kind, None, cap)
+    gen = (lambda base, c: gen_new_case(rng, kind, base)) if kind in NEW_KINDS else \
+        (lambda base, c: gen_case(rng, kind, base, c))
+    first = gen(None, cap)
     rounds = [first]
     for _ in range(rng.choice([1, 2, 2, 3])):
         if cap is not None:
             cap = not cap if rng.random() < 0.85 else cap
-        rounds.append(gen_case(rng, kind, first, cap))
+        rounds.append(gen(first, cap))
     for k, rd in enumerate(rounds):
         # the last round and every capped round is committed; earlier ones are sometimes trashed
-        rd["do_out"] = True if (k == len(rounds) - 1 or rng.random() < 0.65) else False
+        rd["do_out"] = True if (k == len(rounds) - 1 or rng.random() < 0.65 or kind in ("LCV", "CCV")) else False
     job = {k: first[k] for k in ENV_KEYS if k in first}
-    job["rounds"] = [{k: rd[k] for k in ("units", "ret", "expo", "unif", "do_out")} for rd in rounds]
+    job["rounds"] = [{k: rd[k] for k in ROUND_KEYS if k in rd} for rd in rounds]
     return job
 
 
@@ -276,8 +402,26 @@ def coq_ounit(o):
 
 
 def coq_case(job, res):
-    if "exc" in res or res.get("out") is None or any(s and s[0] == "cell" for c in res["calls"] for s in c[2]):
+    if "exc" in res:
         return None
+    kind = job["kind"]
+    job = dict(job)
+    ret = dict(job["ret"])
+    units = job["units"]
+    if kind in ("CELLB", "CCELLB"):
+        ret["disp"] = [f2b(float(job["cells"]["relative"]))]
+    if kind in ("LCV", "CCV"):
+        n0 = len(units)
+        tgt = [dict(u, parent=None if u["parent"] is None else u["parent"] + n0) for u in (job["target"] or [])]
+        units = units + tgt
+        job["separations"] = [n0]
+        ret["bdisp"] = list(job["T"])
+        ret["bder"] = [job["b"]]
+    job["ret"] = ret
+    job["units"] = units
+
+    def csep(s_):
+        return cfl([f2b(float(s_[1]))]) if s_ and s_[0] == "cell" else cfl(s_)
     env = "(mkEnv %s %d%%nat %s %s %d%%nat %s %s %s %s %s)" % (
         cf(job["beta"]), job["dim"], cf(job["L"]), C.coq_bool(job["charge"]), job["ncharge"],
         C.coq_bool(job["change_required"]), cf(job["offset"]), cf(job["max_disp"]),
@@ -288,9 +432,16 @@ def coq_case(job, res):
         cfl(ret.get("disp", [])), cfl(ret.get("bdisp", [])), cfl([] if fixed else ret.get("der", [])),
         cfl(ret.get("bder", [])), C.coq_list([cfl(v) for v in ret["der"]]) if fixed else "[]",
         cfl(job["expo"]), cfl(job["unif"]))
-    calls = C.coq_list(["(mkPC %d%%nat %s %s %s %s)" % (c[0], cfl(c[1]), C.coq_list([cfl(s) for s in c[2]]), cfl(c[3]),
+    calls = C.coq_list(["(mkPC %d%%nat %s %s %s %s)" % (c[0], cfl(c[1]), C.coq_list([csep(s) for s in c[2]]), cfl(c[3]),
                                                          copt(c[4], cf)) for c in res["calls"]])
-    if res["out"] == "skipped":
+    if kind in ("ROOTTL", "ROOTSUM") and res["out"] not in (None, "skipped"):
+        return "HCase2 %s %s %s\n %s\n %s\n %s %s\n %s\n %s\n %s\n %s\n %s" % (
+            kind, env, fd, C.coq_list([coq_hunit(u) for u in job["units"]]),
+            C.coq_list([coq_hunit(u) for u in job["units2"]]),
+            cfl(res["expo_args"]), C.coq_list(["(%s, %s)" % (cf(a), cf(b)) for a, b in res["unif_args"]]), calls,
+            ctime(res["time"]), C.coq_list([coq_ounit(o) for o in res["state1"]]),
+            C.coq_list([coq_ounit(o) for o in res["out"]]), "[]")
+    if res["out"] in (None, "skipped"):
         return "HCaseET %s %s %s\n %s\n %s %s\n %s\n %s" % (
             job["kind"], env, fd, C.coq_list([coq_hunit(u) for u in job["units"]]), cfl(res["expo_args"]), calls,
             ctime(res["time"]), C.coq_list([coq_ounit(o) for o in res["state1"]]))
@@ -353,8 +504,309 @@ def lifting_oracle(scheme, table, active, u1, u2):
     return negi[-1]
 
 
+def slicing_fails(job, units, dumped, T, what):
+    """Every unit with a velocity is at  position + velocity * (T - stamp)  (mod L) with stamp T; others untouched."""
+    fails = []
+    L = b2f(job["L"])
+    Lq = Fr(L)
+    by_id = {tuple(o[0]): o for o in dumped}
+    for u in units:
+        o = by_id[tuple(u["id"])]
+        if u["vel"] is None:
+            if o[1] != u["pos"] or o[2] is not None or o[3] is not None:
+                fails.append("%s: unit %r without velocity changed" % (what, u["id"]))
+            continue
+        if o[3] != T or o[2] != u["vel"]:
+            fails.append("%s: moving unit %r: time stamp / velocity" % (what, u["id"]))
+        dt = tval(T) - tval(u["ts"])
+        for d in range(job["dim"]):
+            want = fr(u["pos"][d]) + fr(u["vel"][d]) * dt
+            got = fr(o[1][d])
+            k = round((want - got) / Lq)
+            tol = Fr(math.ulp(L)) * 4 + abs(fr(u["vel"][d])) * Fr(math.ulp(max(1.0, float(abs(tval(T)))))) * 4 \
+                + abs(want) * Fr(2) ** -50
+            if abs(want - got - k * Lq) > tol or not (0 <= got < Lq):
+                fails.append("%s: moving unit %r not time-sliced to the event time in direction %d" % (what, u["id"], d))
+    return fails
+
+
+def split_objects(units, leaves):
+    srt = sorted(leaves, key=lambda i: units[i]["id"])
+    half = len(srt) // 2
+    if all(units[i]["vel"] is None for i in srt[half:]):
+        return srt[:half], srt[half:]
+    return srt[half:], srt[:half]
+
+
+def composite_out_oracle(job, res, fails, units, pos1, a, loc, tgt, ber, calls, der, use_rate, u_draws, ch_pair, L):
+    """Out-state of a composite-object event with known bounding rate: returns the index of the expected carrier."""
+    nt = len(tgt)
+    fdv = sum(der[:nt])
+    rate_ev = max(Fr(0), fdv)
+    if rate_ev <= u_draws[0] * ber:
+        if len(calls) != nt or res["inserts"]:
+            fails.append("event not confirmed, but the lifting table was filled")
+        return a
+    others = [i for i in loc if i != a]
+    pd = {(i, t): der[nt + r_ * nt + k] for r_, i in enumerate(others) for k, t in enumerate(tgt)}
+    table = {i: ((rate_ev if use_rate else fdv) if i == a else sum(pd[(i, t)] for t in tgt)) for i in loc}
+    for k, t in enumerate(tgt):
+        table[t] = -der[k] - sum(pd[(i, t)] for i in others)
+    order = loc + tgt if units[loc[0]]["id"][0] < units[tgt[0]]["id"][0] else tgt + loc
+    if sum(table.values()) != 0:
+        fails.append("derivative table handed to the lifting does not sum to zero")
+    sel = order[lifting_oracle(job["lifting"], [table[i] for i in order], order.index(a), u_draws[1], u_draws[2])]
+    if [[fr(x[0]), x[1], x[2]] for x in res["inserts"]] != [[table[i], units[i]["id"], i == a] for i in order]:
+        fails.append("lifting.insert calls are not the factor's derivative table in composite-object order")
+    if table[sel] >= 0:
+        fails.append("the lifting selected a unit with non-negative derivative")
+    cs = calls[nt:]
+    k = 0
+    for i in others:
+        for t in tgt:
+            if k < len(cs):
+                if not minimum_image_ok(cs[k][2][0], pos1(i), pos1(t), L):
+                    fails.append("separation handed to the potential (lifting table) is not target - reference")
+                if cs[k][3] != ch_pair(i, t):
+                    fails.append("charges handed to the potential while filling the lifting table")
+            k += 1
+    if k != len(cs):
+        fails.append("number of potential.derivative calls while filling the lifting table")
+    return sel
+
+
+def oracle_new(job, res):
+    """ROOTTL, ROOTSUM, CELLB, CCELLB, LCV, CCV."""
+    if "exc" in res:
+        return ["handler raised " + res["exc"]]
+    fails = []
+    kind = job["kind"]
+    L, beta = b2f(job["L"]), job["beta"]
+    units = job["units"]
+    if kind in ("LCV", "CCV"):
+        n0 = len(units)
+        units = units + [dict(u, parent=None if u["parent"] is None else u["parent"] + n0)
+                         for u in (job["target"] or [])]
+    leaves = [i for i in range(len(units)) if is_leaf(units, i)]
+    calls, n1, T = res["calls"], res["n_calls1"], res["time"]
+    s1 = {tuple(o[0]): o for o in res["state1"]}
+    u_draws = [fr(x) for x in job["unif"]]
+
+    def pos0(i):
+        return units[i]["pos"]
+
+    def pos1(i):
+        return s1[tuple(units[i]["id"])][1]
+
+    def ch_pair(x, y):
+        return [units[x]["charge"], units[y]["charge"]] if job["charge"] else [f2b(1.0)] * job["ncharge"]
+
+    def sep_ok(c, ref, tgt_, what):
+        if not minimum_image_ok(c[2][0], ref, tgt_, L):
+            fails.append("separation handed to the potential (%s) is not target - reference through the minimum image"
+                         % what)
+
+    def moved(out_units, base_units):
+        m_ = {tuple(o[0]): o for o in out_units}
+        return [u["id"] for u in base_units if (m_[tuple(u["id"])][2] is None) != (u["vel"] is None)]
+    # ------------------------------------------------------------------ root-unit-active handlers
+    if kind in ("ROOTTL", "ROOTSUM"):
+        loc, tgt = split_objects(units, leaves)
+        if kind == "ROOTTL":
+            a, o = loc[0], tgt[0]
+            n_expo = 1 if job["change_required"] else 0
+            if n1 != 1 or calls[0][0] != 0:
+                fails.append("expected exactly one potential.displacement call")
+            else:
+                sep_ok(calls[0], pos0(a), pos0(o), "event time")
+                if calls[0][1] != units[a]["vel"]:
+                    fails.append("velocity handed to the potential is not the active unit's")
+                if calls[0][4] != (job["expo"][0] if job["change_required"] else None):
+                    fails.append("potential change handed to displacement is not the expovariate draw")
+                if calls[0][3] != ch_pair(leaves[0], leaves[1]):
+                    fails.append("charges handed to the potential")
+            disp = fr(job["ret"]["disp"][0])
+            confirmed = True
+        else:
+            pairs = [(l_, t) for l_ in loc for t in tgt]
+            n_expo = len(pairs)
+            if n1 != len(pairs) or any(c[0] != 2 for c in calls[:n1]):
+                fails.append("expected one bounding_potential.displacement call per (local, target) pair")
+            else:
+                for k, (l_, t) in enumerate(pairs):
+                    sep_ok(calls[k], pos0(l_), pos0(t), "event time, pair %d" % k)
+                    if calls[k][1] != units[l_]["vel"] or calls[k][4] != job["expo"][k] or calls[k][3] != ch_pair(l_, t):
+                        fails.append("pair %d: velocity / own expovariate draw / charges handed to the bounding potential" % k)
+            disp = min(fr(x) for x in job["ret"]["bdisp"][:len(pairs)])
+            a = loc[0]
+            ber = sum(max(Fr(0), fr(x)) for x in job["ret"]["bder"][:len(pairs)])
+            fdv = sum(fr(x) for x in job["ret"]["der"][:len(pairs)])
+            confirmed = fdv > 0 and u_draws[0] * ber < fdv
+            if res["out"] != "skipped":
+                cs = calls[n1:]
+                if len(cs) != 2 * len(pairs):
+                    fails.append("expected a bounding and a potential derivative call per pair in send_out_state")
+                else:
+                    for k, (l_, t) in enumerate(pairs):
+                        for c in cs[2 * k: 2 * k + 2]:
+                            sep_ok(c, pos1(l_), pos1(t), "out-state, pair %d" % k)
+        if res["expo_args"] != [beta] * n_expo:
+            fails.append("random.expovariate called with %r, expected %d call(s) with setting.beta = %r"
+                         % ([b2f(x) for x in res["expo_args"]], n_expo, b2f(beta)))
+        exact = tval(units[a]["ts"]) + disp
+        if abs(tval(T) - exact) > Fr(math.ulp(max(1.0, float(exact)))):
+            fails.append("candidate event time %r is not stamp + displacement = %r" % (float(tval(T)), float(exact)))
+        fails += slicing_fails(job, units, res["state1"], T, "send_event_time")
+        if res["out"] == "skipped":
+            return fails
+        # out-state = the fresh root cnodes, time-sliced, velocity of the whole object passed on
+        u2 = job["units2"]
+        out = {tuple(o[0]): o for o in res["out"]}
+        leaves2 = [i for i in range(len(u2)) if is_leaf(u2, i)]
+        loc2, tgt2 = split_objects(u2, leaves2)
+        v = u2[loc2[0]]["vel"]
+        if not confirmed:
+            fails += slicing_fails(job, u2, res["out"], T, "send_out_state (not confirmed)")
+            return fails
+        for i in range(len(u2)):
+            o = out[tuple(u2[i]["id"])]
+            # positions: moving units of the fresh state are time-sliced, the others keep their position
+            if u2[i]["vel"] is None and o[1] != u2[i]["pos"]:
+                fails.append("send_out_state: resting unit %r moved" % u2[i]["id"])
+        sl = [dict(u) for u in u2]
+        pos_fail = slicing_fails(job, [u for u in u2 if u["vel"] is not None],
+                                 [[o[0], o[1], u["vel"], T] for u in u2 if u["vel"] is not None
+                                  for o in [out[tuple(u["id"])]]], T, "send_out_state")
+        fails += [f for f in pos_fail if "time-sliced" in f]
+        for i in loc2:
+            o = out[tuple(u2[i]["id"])]
+            if o[2] is not None or o[3] is not None:
+                fails.append("leaf %r of the previously active object still carries a velocity" % u2[i]["id"])
+        for i in tgt2:
+            o = out[tuple(u2[i]["id"])]
+            if o[2] != v or o[3] != T:
+                fails.append("leaf %r of the target object did not receive the velocity / the event time" % u2[i]["id"])
+        for grp, sign in ((loc2, 0), (tgt2, 1)):
+            p = u2[grp[0]]["parent"]
+            if p is None:
+                continue
+            o = out[tuple(u2[p]["id"])]
+            if sign == 0:
+                if o[2] is not None:
+                    fails.append("root of the previously active object keeps velocity %r" % [b2f(x) for x in o[2]])
+            else:
+                want = [fr(c) * sum(fr(u2[i]["weight"]) for i in grp) for c in v]
+                if o[2] is None or o[3] != T or any(abs(fr(g_) - w_) > Fr(1, 2 ** 40) * (1 + abs(w_))
+                                                    for g_, w_ in zip(o[2], want)):
+                    fails.append("root of the target object: velocity is not the sum of weight * velocity of its leaves")
+        return fails
+    # ------------------------------------------------------------------ cell-bounding handlers
+    if kind in ("CELLB", "CCELLB"):
+        cells = job["cells"]
+        act = [i for i in leaves if units[i]["vel"] is not None]
+        a = act[0]
+        if kind == "CELLB":
+            other = [i for i in leaves if i != a][0]
+            cell_units = (a, other)
+            bch = ch_pair(leaves[0], leaves[1])
+        else:
+            loc, tgt = split_objects(units, leaves)
+            roots = [i for i in range(len(units)) if units[i]["parent"] is None]
+            ar = units[a]["parent"]
+            cell_units = (ar, [i for i in roots if i != ar][0])
+            bch = ([units[a]["charge"]] + [units[t]["charge"] for t in tgt]) if job["charge"] else \
+                [f2b(1.0)] * job["ncharge"]
+        if res["expo_args"] != [beta]:
+            fails.append("random.expovariate called with %r, expected one call with setting.beta = %r"
+                         % ([b2f(x) for x in res["expo_args"]], b2f(beta)))
+        want_cells = [["p2c", pos0(cell_units[0])], ["p2c", pos0(cell_units[1])], ["rel", cells["tokens"][1], cells["tokens"][0]]]
+        if res["cells"][:3] != want_cells:
+            fails.append("cells consulted in send_event_time: not cell(active), cell(other), relative_cell(other, active)")
+        if n1 != 1 or calls[0][0] != 2 or calls[0][2] != [["cell", cells["relative"]]]:
+            fails.append("expected one bounding_potential.displacement call with the relative cell")
+        elif calls[0][1] != units[a]["vel"] or calls[0][4] != job["expo"][0] or calls[0][3] != bch:
+            fails.append("velocity / expovariate draw / charges handed to the cell bounding potential")
+        exact = tval(units[a]["ts"]) + fr(job["ret"]["bdisp"][0])
+        if abs(tval(T) - exact) > Fr(math.ulp(max(1.0, float(exact)))):
+            fails.append("candidate event time %r is not stamp + displacement = %r" % (float(tval(T)), float(exact)))
+        fails += slicing_fails(job, units, res["state1"], T, "send_event_time")
+        if res["out"] == "skipped":
+            return fails
+        left = cells["tokens"][2] != cells["tokens"][0]
+        if res["cells"][3:] != [["p2c", pos1(cell_units[0])]]:
+            fails.append("send_out_state did not look up the cell of the time-sliced active unit")
+        if left:
+            if res["out"] is not None or len(calls) != n1 or res["unif_args"]:
+                fails.append("the active unit left its cell: send_out_state must return None without consulting anything")
+            return fails
+        if res["out"] is None:
+            return fails + ["send_out_state returned None although the active unit is still in its cell"]
+        cs = calls[n1:]
+        if not cs or cs[0][0] != 3 or cs[0][2] != [["cell", cells["relative"]]] or cs[0][3] != bch:
+            return fails + ["expected bounding_potential.derivative(velocity, relative cell, charges) first"]
+        b = fr(job["ret"]["bder"][0])
+        if kind == "CELLB":
+            r = fr(job["ret"]["der"][0])
+            if len(cs) != 2:
+                fails.append("expected one potential.derivative call")
+            else:
+                sep_ok(cs[1], pos1(a), pos1(other), "out-state")
+            expected = other if (r > 0 and u_draws[0] * b < r) else a
+        else:
+            der = [fr(x) for x in job["ret"]["der"]]
+            for k, t in enumerate(tgt):
+                if 1 + k < len(cs):
+                    sep_ok(cs[1 + k], pos1(a), pos1(t), "out-state, target %d" % k)
+            expected = composite_out_oracle(job, res, fails, units, pos1, a, loc, tgt, b, cs[1:], der, False, u_draws,
+                                            ch_pair, L)
+    # ------------------------------------------------------------------ cell veto, send_out_state
+    else:
+        act = [i for i in leaves if units[i]["vel"] is not None]
+        a = act[0]
+        fails += slicing_fails(job, units, res["state1"], T, "prepared state")
+        b = fr(job["b"])
+        if job["target"] is None:
+            if calls or res["unif_args"] or res["inserts"] or moved(res["out"], units):
+                fails.append("empty target cell: send_out_state must change nothing and consult nothing")
+            return fails
+        if kind == "LCV":
+            other = [i for i in leaves if i != a][0]
+            r = fr(job["ret"]["der"][0])
+            if len(calls) != 1 or calls[0][0] != 1:
+                fails.append("expected one potential.derivative call")
+            else:
+                sep_ok(calls[0], pos1(a), pos1(other), "out-state")
+                if calls[0][3] != ch_pair(leaves[0], leaves[1]) or calls[0][1] != units[a]["vel"]:
+                    fails.append("velocity / charges handed to the potential")
+            expected = other if (r > 0 and u_draws[0] * b < r) else a
+            if r > 0 and res["unif_args"] != [[0, job["b"]]]:
+                fails.append("thinning draw is not uniform(0, stored bounding event rate)")
+        else:
+            loc, tgt = split_objects(units, leaves)
+            der = [fr(x) for x in job["ret"]["der"]]
+            for k, t in enumerate(tgt):
+                if k < len(calls):
+                    sep_ok(calls[k], pos1(a), pos1(t), "out-state, target %d" % k)
+            if not res["unif_args"] or res["unif_args"][0] != [0, job["b"]]:
+                fails.append("thinning draw is not uniform(0.0, stored bounding event rate)")
+            expected = composite_out_oracle(job, res, fails, units, pos1, a, loc, tgt, b, calls, der, False, u_draws,
+                                            ch_pair, L)
+    s2 = {tuple(o[0]): o for o in res["out"]}
+    carriers = [i for i in leaves if s2[tuple(units[i]["id"])][2] is not None]
+    if carriers != [expected]:
+        fails.append("after send_out_state the velocity is on leaf unit(s) %r, expected %r"
+                     % ([units[i]["id"] for i in carriers], units[expected]["id"]))
+    else:
+        o = s2[tuple(units[expected]["id"])]
+        if o[2] != units[a]["vel"] or o[3] != T:
+            fails.append("the unit that received the velocity does not carry the active velocity / the event time")
+    return fails
+
+
 def oracle(job, res):
     """Returns a list of failure messages (empty = the stated facts hold on this run of the real handler)."""
+    if job["kind"] in NEW_KINDS:
+        return oracle_new(job, res)
     if "exc" in res:
         return ["handler raised " + res["exc"]]
     fails = []
@@ -571,12 +1023,13 @@ COVER = {
     "TwoLeafUnitEventHandlerWithPiecewiseConstantBoundingPotential": "C01 glue PW2",
     "FixedSeparationsEventHandlerWithPiecewiseConstantBoundingPotential": "C01 glue FIXED (+ C05 glue)",
     "TwoCompositeObjectSummedBoundingPotentialEventHandler": "C01 glue SUMMED (+ C05 glue)",
-    "LeafUnitCellVetoEventHandler": "C18 glue (send_event_time); send_out_state not covered",
-    "CompositeObjectCellVetoEventHandler": "C18 glue (send_event_time); send_out_state not covered",
-    "TwoLeafUnitCellBoundingPotentialEventHandler": "not covered by a handler correspondence (C04 thinning logic only)",
-    "TwoCompositeObjectCellBoundingPotentialEventHandler": "not covered by a handler correspondence (C05 glue: _fill_lifting)",
-    "RootUnitActiveTwoLeafUnitEventHandler": "not covered by a handler correspondence",
-    "RootUnitActiveTwoCompositeObjectSummedBoundingPotentialEventHandler": "not covered by a handler correspondence",
+    "LeafUnitCellVetoEventHandler": "C18 glue (send_event_time) + C01 glue LCV (send_out_state)",
+    "CompositeObjectCellVetoEventHandler": "C18 glue (send_event_time) + C01 glue CCV (send_out_state; + C05 glue)",
+    "TwoLeafUnitCellBoundingPotentialEventHandler": "C01 glue CELLB (stub cell system and cell bounding potential)",
+    "TwoCompositeObjectCellBoundingPotentialEventHandler": "C01 glue CCELLB (stub cell system and cell bounding "
+                                                           "potential; + C05 glue)",
+    "RootUnitActiveTwoLeafUnitEventHandler": "C01 glue ROOTTL",
+    "RootUnitActiveTwoCompositeObjectSummedBoundingPotentialEventHandler": "C01 glue ROOTSUM",
 }
 NON_INTERACTION = {"CellBoundaryEventHandler", "FixedIntervalSamplingEventHandler", "FinalTimeEndOfRunEventHandler",
                    "InitialChainStartOfRunEventHandler", "FixedIntervalDumpingEventHandler", "RootLeafUnitActiveSwitcher",
@@ -700,6 +1153,7 @@ def run(ctx, jobs_override=None):
         n = ctx.n(40, 700)
         jobs = load_corpus() + [gen_case(ctx.rng, k) for k in KINDS for _ in range(n)]
         jobs += [gen_seq(ctx.rng, k) for k in KINDS for _ in range(ctx.n(30 if k in ("PW2", "FIXED") else 12, 400))]
+        jobs += [gen_seq(ctx.rng, k) for k in NEW_KINDS for _ in range(ctx.n(25, 400))]
     seqs = jobs
     res_seq = run_impl(ctx, seqs)
     jobs, res, seq_of = [], [], []
@@ -721,8 +1175,11 @@ def run(ctx, jobs_override=None):
             stats["lifting_used"] += 1
         if r["out"] == "skipped":
             stats["trashed"] = stats.get("trashed", 0) + 1
+        elif r["out"] is None:
+            stats["out_none"] = stats.get("out_none", 0) + 1
         else:
-            moved = [o for o, u in zip(r["out"], job["units"]) if (o[2] is None) != (u["vel"] is None)]
+            base_units = job.get("units2") or (job["units"] + (job.get("target") or []))
+            moved = [o for o, u in zip(r["out"], base_units) if (o[2] is None) != (u["vel"] is None)]
             stats["confirmed" if moved else "rejected"] += 1
         t = coq_case(job, r)
         if t is None:
@@ -775,6 +1232,7 @@ def run(ctx, jobs_override=None):
                                              "events rejected / not confirmed": stats["rejected"],
                                              "cases through a lifting scheme": stats["lifting_used"],
                                              "rounds trashed before send_out_state": stats.get("trashed", 0),
+                                             "out-state None (active unit left its cell)": stats.get("out_none", 0),
                                              "handler instances reused over 2-4 rounds": sum(1 for q in seqs if q.get("rounds")),
                                              "cases outside the Coq model's vocabulary": excs}),
         "model_vs_impl_mismatches": len(mism),
@@ -811,7 +1269,10 @@ ASSUME = [
     "directional derivative (C03), bounding rates dominate (C04, partial)",
     "in-state trees have at most two levels (all shipped configurations); derivative values fed to lifting cases are "
     "dyadic so that the float sums inside lifting.py are exact (the lifting itself is C05)",
-    "handler classes listed under 'without handler correspondence' in the evidence are not driven by this check",
+    "cell-veto handlers: send_event_time (Walker sampling, bound lookup for (offset, direction, charge sign), candidate "
+    "time) is C18's glue; here send_out_state runs on the state produced by the handler's own base-class methods "
+    "for a prescribed event time and stored bounding rate; cell systems and (cell) bounding potentials are stubs",
+    "handler classes listed under 'without handler correspondence' in the evidence (none at present) are not driven",
 ]
 
 
